@@ -12,6 +12,19 @@ CLAIMED = {
         "note": ("trusted: cbmc 6.11.0; extraction rule classes; shared_ptr as sole-owner pointer; std::copy/fill/equal models "
                  "(each verified against its contract); induction over operation histories argued in DESIGN.md, not machine-checked"),
     },
+    "C03": {
+        "text": ("partial - index/bookkeeping core: (a) ProjMatrixByBin::cache_key packs (axial, tangential, TOF) into disjoint sign+magnitude "
+                 "fields of a 64-bit key (decoder postconditions) and is injective on its domain (lemma over the contract), so together "
+                 "with the [view][segment] bucket a cached row can only be returned for the bin it was stored for; (b) the real "
+                 "get_proj_matrix_elems_for_one_bin, verified against assumed contracts of its callees, returns the row the property "
+                 "prescribes (basic-bin row, TOF kernel applied iff TOF, transformed by the bin's symmetry operation) in all cache modes, "
+                 "hit or miss, and every cache insertion satisfies the cache invariant - hence independence of request history by "
+                 "induction. Loop-free, full-domain proofs. Not decided: equality of float row values, non-negativity, "
+                 "voxel-inside-image/no-duplicates, clear_cache/set_up."),
+        "note": ("assumed contracts: calculate_proj_matrix_elems_for_one_bin, apply_tof_kernel, SymmetryOperation::transform_*, "
+                 "find_symmetry_operation_from_basic_bin (a self-basic bin gets the trivial operation), std::unordered_map; "
+                 "rows are abstract ids; induction over histories is argued, not machine-checked"),
+    },
     "C09": {
         "text": ("partial - border clause only: for every one of the 45 neighbourhood-bound sites in Quadratic/RelativeDifference/"
                  "Logcosh priors the extracted bound expressions satisfy, for all ints (|.|<2^28): every visited offset d addresses "
@@ -25,7 +38,7 @@ CLAIMED = {
 
 _PENDING = "claimed in DESIGN.md but the check is not built yet in this commit; will move to checks when it exists"
 NOT_APPLICABLE = {
-    "C01": _PENDING, "C02": _PENDING, "C03": _PENDING, "C06": _PENDING, "C08": _PENDING, "C10": _PENDING, "C20": _PENDING,
+    "C01": _PENDING, "C02": _PENDING, "C06": _PENDING, "C08": _PENDING, "C10": _PENDING, "C20": _PENDING,
     "C04": "linearity/adjointness/additivity are equalities up to floating-point reassociation between long accumulations through virtual projector classes; bit-precise CBMC cannot state 'up to rounding' compositionally nor close the Siddon/interpolation loops; no leaf contract decides it",
     "C05": "value/gradient/Hessian are float sums over all bins with log(), reached only through virtual objective-function/projector objects; CBMC's libm model leaves log unconstrained; element-wise kernels do not decide the textbook equality",
     "C07": "EM update is spread over array expressions, back projection and sensitivity caches behind virtual calls; monotonicity/count preservation are real-analysis facts that do not survive bit-precise float semantics; the schedule part of restartability is decided under C06",
